@@ -106,7 +106,7 @@ fn is_err(kind: char) -> bool { kind == 'u' || kind == 't' }
 fn yields(pool: &str, kind: char) -> bool { match pool { "tls" => kind == 'h', _ => kind == 's' || kind == 'g' } }
 
 struct Pk { kind: char, worker: Option<usize>, id: u32, frame: Vec<u8> }
-struct Observed { outcomes: Vec<bool>, disp: u64, drop: u64, wd: Vec<u64>, qsizes: Vec<usize>, result_ids: Vec<u32>, nresults: usize }
+struct Observed { outcomes: Vec<(usize, bool)>, disp: u64, drop: u64, wd: Vec<u64>, qsizes: Vec<usize>, result_ids: Vec<u32>, nresults: usize }
 
 trait PoolApi: Send + Sync { fn dispatch_q(&self, p: Vec<u8>) -> bool; fn stat(&self) -> (u64, u64, Vec<u64>, Vec<usize>); fn stop(&self); }
 macro_rules! pool_api { ($krate:ident) => {
@@ -117,27 +117,52 @@ macro_rules! pool_api { ($krate:ident) => {
     } } }
 pool_api!(huginn_net_tcp); pool_api!(huginn_net_http); pool_api!(huginn_net_tls);
 
-fn drive(pool: Arc<dyn PoolApi>, pks: &[Pk], threads: usize, seed: u64) -> Vec<bool> {
-    let mut outcomes = vec![false; pks.len()];
+/// how a case is driven: `rounds` passes over the packet list through the same pool, every pass started on a barrier;
+/// `tight`: no seeded pauses between dispatches (all threads hammer the same few queue slots)
+#[derive(Clone, Copy)]
+struct Plan { threads: usize, seed: u64, rounds: usize, tight: bool, matcher: bool }
+/// contended cases (derived from the case line only): a queue of one or two slots, at least four dispatcher
+/// threads and more packets than slots -> eight barrier-started passes without pauses; the TCP worker is slowed down
+/// by the signature matcher on odd seeds, so that dispatchers race for every slot the worker frees
+fn plan(cap: usize, threads: usize, seed: u64, calls: usize) -> Plan {
+    let contended = (cap == 1 || cap == 2) && threads >= 4 && calls > cap;
+    Plan { threads, seed, rounds: if contended { 8 } else { 1 }, tight: contended, matcher: contended && seed % 2 == 1 }
+}
+fn database() -> Arc<huginn_net_tcp::db::Database> {
+    static DB: std::sync::OnceLock<Arc<huginn_net_tcp::db::Database>> = std::sync::OnceLock::new();
+    DB.get_or_init(|| Arc::new(huginn_net_tcp::db::Database::load_default().expect("bundled database"))).clone()
+}
+
+fn drive(pool: Arc<dyn PoolApi>, pks: &[Pk], pl: Plan) -> Vec<(usize, bool)> {
+    let threads = pl.threads;
     let chunks: Vec<Vec<usize>> = (0..threads).map(|t| (0..pks.len()).filter(|i| i % threads == t).collect()).collect();
+    let barrier = std::sync::Barrier::new(threads);
     let res: Vec<Vec<(usize, bool)>> = std::thread::scope(|s| {
         let hs: Vec<_> = chunks.iter().enumerate().map(|(t, idx)| {
             let pool = pool.clone();
-            let mut r = Rng::new(seed.wrapping_mul(1000).wrapping_add(t as u64));
+            let barrier = &barrier;
+            let mut r = Rng::new(pl.seed.wrapping_mul(1000).wrapping_add(t as u64));
             s.spawn(move || {
                 let mut v = Vec::new();
-                for &i in idx {
-                    for _ in 0..r.below(200) { std::hint::spin_loop(); }
-                    if r.chance(1, 16) { std::thread::yield_now(); }
-                    v.push((i, pool.dispatch_q(pks[i].frame.clone())));
+                for round in 0..pl.rounds {
+                    barrier.wait();
+                    // later passes walk the list from a different start so that the threads do not stay in lock step
+                    let off = if idx.is_empty() { 0 } else { (round * 7 + t) % idx.len() };
+                    for k in 0..idx.len() {
+                        let i = idx[(k + off) % idx.len()];
+                        if !pl.tight {
+                            for _ in 0..r.below(200) { std::hint::spin_loop(); }
+                            if r.chance(1, 16) { std::thread::yield_now(); }
+                        }
+                        v.push((i, pool.dispatch_q(pks[i].frame.clone())));
+                    }
                 }
                 v
             })
         }).collect();
         hs.into_iter().map(|h| h.join().unwrap()).collect()
     });
-    for v in res { for (i, q) in v { outcomes[i] = q; } }
-    outcomes
+    res.into_iter().flatten().collect()
 }
 fn settle(pool: &Arc<dyn PoolApi>) {
     let t0 = std::time::Instant::now();
@@ -145,12 +170,12 @@ fn settle(pool: &Arc<dyn PoolApi>) {
     pool.stop();
 }
 
-fn observe(pool_name: &str, n: usize, cap: usize, threads: usize, seed: u64, pks: &[Pk]) -> Observed {
+fn observe(pool_name: &str, n: usize, cap: usize, pl: Plan, pks: &[Pk]) -> Observed {
     match pool_name {
         "tcp" => {
             let (tx, rx) = std::sync::mpsc::channel::<huginn_net_tcp::TcpAnalysisResult>();
-            let pool: Arc<dyn PoolApi> = Arc::new(huginn_net_tcp::WorkerPool::new(n, cap, 4, 2, tx, None, 1000, None).unwrap());
-            let outcomes = drive(pool.clone(), pks, threads, seed);
+            let pool: Arc<dyn PoolApi> = Arc::new(huginn_net_tcp::WorkerPool::new(n, cap, 4, 2, tx, if pl.matcher { Some(database()) } else { None }, 1000, None).unwrap());
+            let outcomes = drive(pool.clone(), pks, pl);
             settle(&pool);
             let rs: Vec<_> = rx.iter().collect();
             let ids = rs.iter().filter_map(|r| r.syn.as_ref().map(|s| id_of(s.source.ip, s.source.port))).collect();
@@ -161,7 +186,7 @@ fn observe(pool_name: &str, n: usize, cap: usize, threads: usize, seed: u64, pks
             let (tx, rx) = std::sync::mpsc::channel::<huginn_net_http::HttpAnalysisResult>();
             let p: Arc<huginn_net_http::WorkerPool> = huginn_net_http::WorkerPool::new(n, cap, 4, 2, tx, None, 1000, None).unwrap();
             let pool: Arc<dyn PoolApi> = p;
-            let outcomes = drive(pool.clone(), pks, threads, seed);
+            let outcomes = drive(pool.clone(), pks, pl);
             settle(&pool);
             let nresults = rx.iter().count();
             let (disp, drop, wd, qsizes) = pool.stat();
@@ -170,7 +195,7 @@ fn observe(pool_name: &str, n: usize, cap: usize, threads: usize, seed: u64, pks
         _ => {
             let (tx, rx) = std::sync::mpsc::channel::<huginn_net_tls::TlsClientOutput>();
             let pool: Arc<dyn PoolApi> = Arc::new(huginn_net_tls::WorkerPool::new(n, cap, 4, 2, tx, 1000, None).unwrap());
-            let outcomes = drive(pool.clone(), pks, threads, seed);
+            let outcomes = drive(pool.clone(), pks, pl);
             settle(&pool);
             let rs: Vec<_> = rx.iter().collect();
             let ids = rs.iter().map(|r| id_of(r.source.ip, r.source.port)).collect();
@@ -196,34 +221,37 @@ fn run_q(t: &[&str]) -> String {
         if real_worker(pool, n, &frame) != worker { return format!("HASHMISMATCH {} real={:?}", tok, real_worker(pool, n, &frame)); }
         pks.push(Pk { kind, worker, id, frame });
     }
-    let o = observe(pool, n, cap, threads, seed, &pks);
-    let calls = pks.len();
-    let queued = o.outcomes.iter().filter(|q| **q).count();
-    let dropped = calls - queued;
+    let pl = plan(cap, threads, seed, pks.len());
+    let o = observe(pool, n, cap, pl, &pks);
+    let calls = pks.len();                       // per pass; the laws are checked over all passes
+    let total = o.outcomes.len();
+    let queued = o.outcomes.iter().filter(|(_, q)| *q).count();
+    let dropped = total - queued;
     let mut bad: Vec<String> = Vec::new();
+    if total != calls * pl.rounds { bad.push(format!("{} dispatch calls returned, {} were made", total, calls * pl.rounds)); }
     // the law the model states for this pool
-    let discards = pks.iter().filter(|p| p.worker.is_none()).count();
-    let want_disp = match pool { "tcp" => queued, "http" => calls, _ => calls - discards } as u64;
+    let discards = o.outcomes.iter().filter(|(i, _)| pks[*i].worker.is_none()).count();
+    let want_disp = match pool { "tcp" => queued, "http" => total, _ => total - discards } as u64;
     if o.disp != want_disp { bad.push(format!("total_dispatched={} but the law gives {}", o.disp, want_disp)); }
-    if o.drop != dropped as u64 { bad.push(format!("total_dropped={} but dispatch returned Dropped {} times", o.drop, dropped)); }
+    if o.drop != dropped as u64 { bad.push(format!("total_dropped={} but dispatch returned Dropped {} times ({} calls, {} Queued)", o.drop, dropped, total, queued)); }
     for w in 0..n {
-        let d = (0..calls).filter(|&i| !o.outcomes[i] && pks[i].worker == Some(w)).count();
+        let d = o.outcomes.iter().filter(|(i, q)| !*q && pks[*i].worker == Some(w)).count();
         if o.wd.get(w).copied() != Some(d as u64) { bad.push(format!("worker {} dropped={:?} but dispatch returned Dropped {} times for it", w, o.wd.get(w), d)); }
     }
-    for i in 0..calls { if pks[i].worker.is_none() && o.outcomes[i] { bad.push(format!("packet {} has no worker but was reported Queued", i)); } }
+    for (i, q) in &o.outcomes { if pks[*i].worker.is_none() && *q { bad.push(format!("packet {} has no worker but was reported Queued", i)); } }
     // each queued packet analysed exactly once, none dropped is
-    let want_results = (0..calls).filter(|&i| o.outcomes[i] && yields(pool, pks[i].kind)).count();
+    let want_results = o.outcomes.iter().filter(|(i, q)| *q && yields(pool, pks[*i].kind)).count();
     if o.nresults != want_results { bad.push(format!("{} results received, {} queued packets yield one", o.nresults, want_results)); }
     if pool != "http" {
         let mut got = o.result_ids.clone(); got.sort();
-        let mut want: Vec<u32> = (0..calls).filter(|&i| o.outcomes[i] && yields(pool, pks[i].kind) && pks[i].kind != 'g').map(|i| pks[i].id).collect(); want.sort();
+        let mut want: Vec<u32> = o.outcomes.iter().filter(|(i, q)| *q && yields(pool, pks[*i].kind) && pks[*i].kind != 'g').map(|(i, _)| pks[*i].id).collect(); want.sort();
         if got != want { bad.push(format!("analysed ids {:?} differ from queued ids {:?}", &got[..got.len().min(8)], &want[..want.len().min(8)])); }
     }
     if o.qsizes.iter().any(|q| *q != 0) { bad.push(format!("queues not empty at the end: {:?}", o.qsizes)); }
     let mut s = if calls <= cap {
         format!("calls={} queued={} dropped={} disp={} drop={} wd={} results={} law=ok", calls, queued, dropped, o.disp, o.drop,
                 o.wd.iter().map(|x| x.to_string()).collect::<Vec<_>>().join(","), o.nresults)
-    } else { format!("calls={} law=ok\tqueued={}", calls, queued) };
+    } else { format!("calls={} law=ok\tpasses={} dispatches={} queued={}", calls, pl.rounds, total, queued) };
     if !bad.is_empty() { s.push_str(&format!("\t!{} pool: {}", pool, bad.join("; "))); }
     s
 }
@@ -330,6 +358,25 @@ fn gen(r: &mut Rng, tier: &Tier, out: &mut Vec<String>) {
             let w = real_worker(pool, n, &frame_of(kind, id));
             toks.push(format!("{}:{}:{}", kind, w.map(|x| x.to_string()).unwrap_or("-".into()), id));
         }
+        out.push(format!("Q {} {} {} {} {} {}", pool, n, cap, threads, r.below(1 << 30), toks.join(" ")));
+    }
+    // contended accounting: every packet goes to ONE worker whose queue holds one or two packets, 4..8 dispatcher threads
+    // (the harness then makes eight barrier-started passes without pauses: ~500 dispatches per case racing for the
+    // slots the worker frees), so `calls = queued + dropped` and `total_dropped = number of Dropped` are exercised
+    // tens of thousands of times per run
+    let nc = tier.scale(96, 600);
+    for q in 0..nc {
+        let pool = if q % 4 == 3 { CRATES[1 + (q / 4) % 2] } else { "tcp" };
+        let n = if pool == "tcp" { *r.pick(&[1usize, 2, 4]) } else { 1 };       // tcp: one source address = one worker
+        let cap = 1 + q % 2;
+        let threads = 4 + (q / 2) % 5;
+        let npk = r.range(48, 64) as usize;
+        let ipid = r.below(1 << 16) as u32;
+        let toks: Vec<String> = (0..npk).map(|j| {
+            let kind = if pool == "tls" && j % 2 == 0 { 'h' } else { 's' };
+            let id = ipid * 64 + j as u32;
+            let w = real_worker(pool, n, &frame_of(kind, id));
+            format!("{}:{}:{}", kind, w.map(|x| x.to_string()).unwrap_or("-".into()), id) }).collect();
         out.push(format!("Q {} {} {} {} {} {}", pool, n, cap, threads, r.below(1 << 30), toks.join(" ")));
     }
 }
